@@ -1,4 +1,5 @@
 """C06 - parameterised rules behave like their expansion."""
+import engine
 import pegcheck
 
 
@@ -11,4 +12,9 @@ def run(chk):
     chk.assumptions += ['substitution semantics: PegSem binds parser arguments as closures over the call-site '
                         'environment; LawExpansion (call = textual expansion) is model-checked for closed arguments']
     cases = pegcheck.collect(chk, 'MC_C06', 'MC_C06_' + chk.tier, timeout_s=3000)
-    pegcheck.replay(chk, cases, sample_every=997)
+    # the same grammars with closures spelled `lambda v_, x=x: ...` (the lambda's own parameters carry grammar names)
+    extra = engine.with_lambda_defaults(cases)
+    for k, c in enumerate(extra):
+        c['id'] = len(cases) + k
+    chk.notes['lambda_default_spellings'] = len(extra)
+    pegcheck.replay(chk, cases + extra, sample_every=997)
